@@ -24,6 +24,7 @@ import (
 	"k8s.io/apimachinery/pkg/runtime/schema"
 	"k8s.io/apimachinery/pkg/types"
 	"sigs.k8s.io/controller-runtime/pkg/reconcile"
+	"sigs.k8s.io/yaml"
 
 	xpv1 "github.com/crossplane/crossplane-runtime/apis/common/v1"
 	"github.com/crossplane/crossplane-runtime/pkg/resource"
@@ -98,6 +99,20 @@ func buildComp(c *content) *v1.Composition {
 	return &v1.Composition{ObjectMeta: metav1.ObjectMeta{Name: compName, Labels: c.labels, Annotations: c.annots}, Spec: *c.spec.DeepCopy()}
 }
 
+// refHash is the content hash as every released version computes it and as the revisions in existing clusters carry it in
+// their hash label: sha256 over the YAML of the Composition's labels, annotations and spec, in that order. It is written
+// down here, not taken from the code under test: the label is persisted state, and a controller that computes another hash
+// for the same content no longer recognises the revisions it finds (added after the seeded change C12-m10 was missed - the
+// table used to be filled with Composition.Hash() itself, so a changed hash function agreed with itself).
+func refHash(c *content) string {
+	h := sha256.New()
+	y, _ := yaml.Marshal(c.labels)
+	a, _ := yaml.Marshal(c.annots)
+	sp, _ := yaml.Marshal(c.spec)
+	_, _ = h.Write(append(append(y, a...), sp...))
+	return fmt.Sprintf("%x", h.Sum(nil))
+}
+
 // tableFor builds the concrete contents for the abstract ones of a scenario.
 // Revision names are <composition>-<hash[:7]> and a List returns them sorted
 // by name, so the free nonces are searched until the names sort in the order
@@ -129,9 +144,11 @@ func tableFor(init map[string]any) *table {
 				c.labels = map[string]string{selLabel: l, "verif.example.org/nonce": strconv.Itoa(n)}
 			}
 			if a := sh["ann"].(string); a != "none" {
-				c.annots = map[string]string{"verif.example.org/note": fmt.Sprintf("%s-%d", a, n)}
+				// (an annotated Composition is one that was written with `kubectl apply`: it also carries kubectl's own annotation)
+				c.annots = map[string]string{"verif.example.org/note": fmt.Sprintf("%s-%d", a, n),
+					"kubectl.kubernetes.io/last-applied-configuration": fmt.Sprintf(`{"note":"%s-%d"}`, a, n)}
 			}
-			c.hash = buildComp(c).Hash()
+			c.hash = refHash(c)
 			c.revName = compName + "-" + c.hash[:7]
 			c.key = tripleKey(c.labels, c.annots, c.spec)
 			c.specMap = jsonMap(c.spec)
@@ -162,16 +179,16 @@ type world struct {
 	scenID  string
 	compUID types.UID
 
-	al       *replay.Aligner
-	recNo    int
-	seen     map[string]any
-	touched  map[string]bool // revisions this reconcile already sent an Update for
-	pending  string          // abstract key of the call being served (set by the interceptor)
-	quiet    bool
-	stripped bool // environment fact: a backup/restore stripped the owner references earlier in this run
-	fetches  int
+	al         *replay.Aligner
+	recNo      int
+	seen       map[string]any
+	touched    map[string]bool // revisions this reconcile already sent an Update for
+	pending    string          // abstract key of the call being served (set by the interceptor)
+	quiet      bool
+	stripped   bool // environment fact: a backup/restore stripped the owner references earlier in this run
+	fetches    int
 	hidePinned bool // reads of CompositionRevisions by the XR's client answer NotFound
-	xcalls   int
+	xcalls     int
 }
 
 func (w *world) contentOfRevName(n string) string {
